@@ -343,11 +343,24 @@ fn merge_target_argmaps<'a>(
     if input.use_base_argmaps || !input.argmaps.is_empty() {
         let cfg_target = &cfg.targets[*index.get_target_index(target)?];
         let argmap_path = work_path.join(cfg_target.argmaps.get_path(path::Path::new(target)));
+        // the file of an argmap: its `argmaps.definitions` entry if the target has one,
+        // otherwise <argmaps.path>/<name>.json
+        let argmap_file = |name: &str| -> path::PathBuf {
+            match cfg_target
+                .argmaps
+                .definitions
+                .as_ref()
+                .and_then(|defs| defs.get(name))
+            {
+                Some(def) if !def.path.is_empty() => work_path.join(&def.path),
+                _ => argmap_path.join(format!("{}.json", name)),
+            }
+        };
         if input.use_base_argmaps {
-            argmap.merge_target_argmap(target, &argmap_path.join("base.json"))?;
+            argmap.merge_target_argmap(target, &argmap_file("base"))?;
         }
         for m in &input.argmaps {
-            argmap.merge_target_argmap(target, &argmap_path.join(format!("{}.json", m)))?;
+            argmap.merge_target_argmap(target, &argmap_file(m.as_str()))?;
         }
     }
     Ok(())
